@@ -58,7 +58,9 @@ def main():
         res["demo_patched_rc"] = rc
         res["demo_patched_out"] = out[-600:]
         if suite:
-            rc, out = sh("python3 %s/harness/baseline.py" % VERIF, env=dict(os.environ, VERIF_REPO=wt), timeout=3000)
+            # one suite at a time: concurrent suite runs collide on the suite's fixed /tmp fixture names
+            rc, out = sh("flock /tmp/verif-suite.lock python3 %s/harness/baseline.py" % VERIF, env=dict(os.environ, VERIF_REPO=wt),
+                         timeout=6000)
             res["suite_rc"] = rc
             res["suite_tail"] = out[-300:]
         os.unlink(os.path.join(wt, "demo.py"))
